@@ -81,6 +81,8 @@ pub struct Monitors {
     ping_timeout_max: bool,
     pub stronger_slow_start_hits: usize,
     carried_interrupted_set: HashSet<u64>,
+    /// C01.R7: tag -> (ack kind, id, token, step) of the final acknowledgement the engine accepted
+    accepted_final: HashMap<u64, (&'static str, u16, Option<String>, usize)>,
     blind: bool,
     inbound_unframed: bool,
 }
@@ -101,7 +103,7 @@ impl Monitors {
             policy: case.engine.policy, max_retries: case.engine.max_retries, one_at_a_time: case.engine.one_at_a_time, conn: HashMap::new(),
             inbound_qos2: HashSet::new(), inbound_qos2_unknown: HashSet::new(), interrupted_set: HashSet::new(), id_holders: HashMap::new(), min_unresolved: 0, prev: None, spin_run: 0, successes_since_reset: 0,
             audit_pending: None, connect_spec: case.engine.connect.clone(), ping_timeout_ms: case.engine.ping_timeout_ms, ping_timeout_max: case.engine.ping_timeout_max,
-            stronger_slow_start_hits: 0, carried_interrupted_set: HashSet::new(), blind: false, inbound_unframed: false,
+            stronger_slow_start_hits: 0, carried_interrupted_set: HashSet::new(), accepted_final: HashMap::new(), blind: false, inbound_unframed: false,
         }
     }
 
@@ -310,18 +312,21 @@ impl Monitors {
         }
         // R7: a final acknowledgement that belongs to an unresolved operation (id it was sent with on
         // this connection, matching packet type, packet completely written before this step) and that
-        // the engine processed without error must resolve that operation in this very step. Judged
-        // only when the whole delivery returned Ok (otherwise only a prefix was processed) and the
-        // reference decoder could frame the server's stream.
+        // the engine processed without error ends that operation's flow: whenever the operation is
+        // reported successful (in this step or later) the result must carry exactly that
+        // acknowledgement - not a later one (e.g. a PUBCOMP obtained by going on after a failing
+        // PUBREC). The statement allows an error result at any time, so errors are not judged here, and
+        // "never resolved" is R4/R6. Judged only when the whole delivery returned Ok (otherwise only a
+        // prefix was processed) and the reference decoder could frame the server's stream.
         if matches!(rec.result, CallResult::Ok) && !self.blind && !self.inbound_unframed {
             for (c, ii) in &delta.new_inbound {
                 let ip = &world.conns[*c].inbound[*ii];
-                let (kind, pid, reason): (&'static str, u16, u8) = match &ip.packet {
-                    rf::Packet::Puback(a) => ("PUBACK", a.packet_id, a.reason),
-                    rf::Packet::Pubrec(a) => ("PUBREC", a.packet_id, a.reason),
-                    rf::Packet::Pubcomp(a) => ("PUBCOMP", a.packet_id, a.reason),
-                    rf::Packet::Suback(a) => ("SUBACK", a.packet_id, 0),
-                    rf::Packet::Unsuback(a) => ("UNSUBACK", a.packet_id, 0),
+                let (kind, pid, reason, token): (&'static str, u16, u8, Option<String>) = match &ip.packet {
+                    rf::Packet::Puback(a) => ("PUBACK", a.packet_id, a.reason, a.reason_string.clone()),
+                    rf::Packet::Pubrec(a) => ("PUBREC", a.packet_id, a.reason, a.reason_string.clone()),
+                    rf::Packet::Pubcomp(a) => ("PUBCOMP", a.packet_id, a.reason, a.reason_string.clone()),
+                    rf::Packet::Suback(a) => ("SUBACK", a.packet_id, 0, a.reason_string.clone()),
+                    rf::Packet::Unsuback(a) => ("UNSUBACK", a.packet_id, 0, a.reason_string.clone()),
                     _ => continue,
                 };
                 let oi = match world.conn_ids.get(&(*c, pid)) { Some(oi) => *oi, None => continue };
@@ -340,9 +345,23 @@ impl Monitors {
                 self.count("c01.final_acks_delivered");
                 if reason >= 0x80 { self.count("c01.failing_final_acks_delivered"); }
                 if kind == "PUBREC" { self.count("c01.failing_pubrecs_delivered"); }
-                if !op.completions.iter().any(|(s, _, _)| *s == rec.index) {
-                    self.viol("C01", "C01.R7-own-ack-did-not-resolve", sig(&[("kind", op.kind.name().into()), ("ack", kind.into()), ("failing", (reason >= 0x80).to_string())]), rec.index, format!("op {} (id {}) was sent {} reason {:#x} and the engine accepted it, but the operation was not resolved by it", op.tag, pid, kind, reason));
-                }
+                self.accepted_final.entry(op.tag).or_insert((kind, pid, token, rec.index));
+            }
+        }
+        for (tag, outcome) in &rec.completions {
+            let exp = match self.accepted_final.get(tag) { Some(e) => e.clone(), None => continue };
+            let (got_kind, got_id, got_token): (&'static str, u16, Option<String>) = match outcome {
+                OutcomeView::Puback(a) => ("PUBACK", a.packet_id, a.token.clone()),
+                OutcomeView::Pubrec(a) => ("PUBREC", a.packet_id, a.token.clone()),
+                OutcomeView::Pubcomp(a) => ("PUBCOMP", a.packet_id, a.token.clone()),
+                OutcomeView::Suback { packet_id, token, .. } => ("SUBACK", *packet_id, token.clone()),
+                OutcomeView::Unsuback { packet_id, token, .. } => ("UNSUBACK", *packet_id, token.clone()),
+                _ => continue, // errors (always allowed by the statement), Qos0, Dropped (R2)
+            };
+            self.count("c01.successes_after_final_ack");
+            if got_kind != exp.0 || got_id != exp.1 || got_token != exp.2 {
+                let kind_name = world.op(*tag).map(|o| o.kind.name()).unwrap_or("?");
+                self.viol("C01", "C01.R7-resolved-by-a-later-acknowledgement", sig(&[("kind", kind_name.into()), ("accepted", exp.0.into()), ("reported", got_kind.into())]), rec.index, format!("op {}: the engine accepted its {} (id {}, step {}) but reported success with {} (id {})", tag, exp.0, exp.1, exp.3, got_kind, got_id));
             }
         }
         if let (Event::Reset, Some(s)) = (&rec.event, ctx.post_snapshot) {
